@@ -2,7 +2,7 @@
 C06 -- operations never change the value of their operands.
 
 Frame contract `assigns \\nothing` (on everything reachable from the arguments at entry) for every public entry point:
-  * the frame obligations of all contract cases of C01 C02 C03 C04 C07 C08 C09 C19 C20 are re-run here (same scenarios, only the
+  * the frame obligations of all contract cases of C01 C02 C03 C04 C07 C08 C09 C14 C19 C20 are re-run here (same scenarios, only the
     frame-kind obligations are reported under C06),
   * the iterative routines with user-supplied initial guesses (fast_matvec, dmrg_hadamard, riemannian_projection) are executed in the
     shape+heap domain (values opaque) for small structures,
@@ -19,13 +19,13 @@ from ttvc import harness as H, tensors as T, interp as I, oblig
 from ttvc.tensors import STensor, SymScalar, is_sym, to_int
 from ttvc.oblig import scenario, Scenario, SCENARIOS
 from .common import *
-from . import c01, c02, c03, c04, c07, c08, c09, c19, c20
+from . import c01, c02, c03, c04, c07, c08, c09, c14, c19, c20
 
 LEVEL = 'proof'
 TRUSTED = TRUSTED_COMMON + ['storage / view model of the op table: reshape of a contiguous tensor, permute, t, basic indexing, diagonal, squeeze, unsqueeze, conj, detach are views; '
                             'clone, arithmetic, einsum, pad, cat, matmul return fresh storage']
 ASSUMPTIONS = ['DMRG routines: order d=2 with nswp<=2 and d=3 with nswp=1 (all symbolic paths; sizes, ranks, kickrank symbolic); the sweep body is the same code for every order',
-               'amen_mv / amen_mm: orders 1, 2, one sweep (all symbolic paths); amen_solve, amen_divide and the cross interpolation are covered by the bounded run-time stand-ins of C12-C14 only (guess unchanged clause)']
+               'amen_mv / amen_mm: orders 1, 2, one sweep (all symbolic paths); dmrg_cross / function_interpolate: order 2 (argument tensors and starting tensor not written; C14 scenarios); amen_solve and amen_divide are covered by the bounded run-time stand-ins of C12-C13 only (guess unchanged clause)']
 EXPLANATION = 'frame conditions with an explicit heap: every list and tensor storage reachable from an argument is registered at entry; any write to one of them on any path fails the obligation'
 
 
@@ -41,7 +41,7 @@ def _wrap(fn):
 
 def _import_frames():
     import inspect
-    for prop, mod in (('C03', c03), ('C04', c04), ('C07', c07), ('C08', c08), ('C09', c09), ('C19', c19), ('C20', c20), ('C02', c02), ('C01', c01)):
+    for prop, mod in (('C03', c03), ('C04', c04), ('C07', c07), ('C08', c08), ('C09', c09), ('C19', c19), ('C20', c20), ('C02', c02), ('C01', c01), ('C14', c14)):
         for s in list(SCENARIOS.get(prop, [])):
             if getattr(s.fn, 'canary', False) or s.expect != 'ok' or s.name in ('rank_chop', 'lr_orthogonal'):
                 continue
